@@ -33,6 +33,7 @@
   (two locks of the same field of different objects).
 -/
 import Influx.Lemmas.EngineInv
+import Influx.Lemmas.EngineTrace2
 import Influx.Model.LockOrder
 import Influx.Model.LockOrderExtracted
 
@@ -253,6 +254,27 @@ theorem C39_commit_order_matters :
 theorem C39_delete_window :
     let s := run w0 [.snapBegin, .snapReplace, .delFile 0 0 1 1, .delCache 0 1 1]
     s.abs 0 1 = some 7 ∧ (step s .snapClear).abs 0 1 = none := by
+  decide
+
+/-! ### the statement checker on the model's own schedules -/
+
+/-- **C39_holdsOn (partial)**: on every schedule of the model's operation machine that
+    does not split a read into its two phases — any sequence of writes, snapshot
+    begin / replace / clear, compaction begin / commit, whole deletes, deletes held
+    between their tombstones and their cache step (with writes racing them), and
+    atomic reads at every intermediate state — the statement checker `Spec.C39` (the
+    one evaluated on the REAL engine's answers) finds every read explained by a serial
+    order of the completed operations.  Missing: schedules with two-phase reads; for
+    those the per-point theorem `C39_read_point` holds at state level and the
+    correspondence run compares every answer with the real engine. -/
+theorem C39_holdsOn_partial (ops : List Op) (hops : ∀ op ∈ ops, op.twoPhase = false) :
+    Spec.C39.holdsOn (sysRun Sys.init ops) = true := by
+  unfold Spec.C39.holdsOn
+  rw [failures_sys ops Sys.init Spec.C39.SpecSt.init Rel_init hops]
+  rfl
+
+example : ∀ op ∈ [Op.write 0 1 7, .snapBegin, .read 0, .write 0 1 8, .snapReplace, .compactBegin, .read 0,
+    .snapClear, .compactCommit, .delBegin 0 1 1, .write 0 1 5, .read 0, .delEnd, .read 0], op.twoPhase = false := by
   decide
 
 /-! ## lock order -/
